@@ -2,7 +2,7 @@
 # tools/try_seed.sh <property id> <dir with patch.diff> : apply to /repo, run the check, undo; prints exit code and violated obligations
 id=$1; dir=$2
 git -C /repo apply $dir/patch.diff || { echo "patch does not apply"; exit 3; }
-cd /verif && ./vf check $id > /tmp/try_$id.log 2>&1; code=$?
+mkdir -p /tmp/vf_scratch; cd /verif && VERIF_SCRATCH_OUT=/tmp/vf_scratch ./vf check $id > /tmp/try_$id.log 2>&1; code=$?
 git -C /repo checkout -- .
 echo "$id exit=$code"
 grep -v ^WARN /tmp/try_$id.log | grep -v Warning | grep -v ^KNOWN | grep -v "^VIOLATION" | cut -c1-${3:-420} | head -${4:-6}
